@@ -166,6 +166,12 @@ def menu(M, seen):
         if n >= 1:
             add({"op": "modify", "name": mname, "form": "scalar"})
             add({"op": "modify", "name": mname, "form": "len1"})
+            add({"op": "modify", "name": mname, "form": "len1col"})
+            # the constructor called with the frame's own columns plus values to broadcast (a scalar, a one-element
+            # list, a one-element DataFrameColumn taken from elsewhere)
+            add({"op": "ctor_bcast", "name": mname, "form": "scalar"})
+            add({"op": "ctor_bcast", "name": mname, "form": "len1"})
+            add({"op": "ctor_bcast", "name": mname, "form": "len1col"})
         add({"op": "select", "cols": list(reversed(names))})
         add({"op": "select", "cols": [names[0]]})
         # calls with nothing to do: no names, no pairs, no other frames
@@ -188,6 +194,7 @@ def menu(M, seen):
         if n >= 1 or k == 0:
             add({"op": "setitem", "name": nm, "form": "scalar"})
             add({"op": "setitem", "name": nm, "form": "len1"})
+            add({"op": "setitem", "name": nm, "form": "len1col"})
         if k >= 1:
             add({"op": "setitem", "name": nm, "form": "wrong"})
     if k >= 1:
@@ -232,7 +239,7 @@ def adds_column(op, M):
     o = op["op"]
     if o in ("setitem", "setattr") and not M.has(op["name"]):
         return 1
-    if o == "modify" and not M.has(op["name"]):
+    if o in ("modify", "ctor_bcast") and not M.has(op["name"]):
         return 1
     if o in ("rbind_partner", "left_join", "inner_join", "full_join"):
         return 3  # the partner's three new columns
@@ -295,6 +302,8 @@ def side_frame(M, rows, with_existing):
 def value_of(form, n, M):
     if form == "scalar":
         return 5, [5]
+    if form == "len1col":
+        return di.DataFrameColumn([5]), [5]
     if form == "len1":
         return [5], [5]
     if form == "vector":
@@ -331,6 +340,11 @@ def apply_real(d, M, op):
         return d.deepcopy(), []
     if o == "ctor":
         return di.DataFrame(d), []
+    if o == "ctor_bcast":
+        val, _ = value_of(op["form"], M.nrow, M)
+        cols = {nm: np.array(np.asarray(dict.__getitem__(d, nm))) for nm in dict.keys(d)}
+        cols[op["name"]] = val
+        return di.DataFrame(**cols) if all(k.isidentifier() for k in cols) else di.DataFrame(cols), []
     if o == "rt_lod":
         return d.to_list_of_dicts().to_data_frame(), []
     if o == "rt_json":
@@ -535,6 +549,9 @@ def apply_model(M, op):
     if o == "modify":
         if op["form"] == "callable":
             return M.modify(op["name"], M.get(M.names[0])), flags
+        _, mv = value_of(op["form"], n, M)
+        return M.modify(op["name"], mv), flags
+    if o == "ctor_bcast":
         _, mv = value_of(op["form"], n, M)
         return M.modify(op["name"], mv), flags
     if o == "noarg":
